@@ -26,6 +26,11 @@ LEVEL = 'exploration'
 BUDGET = {'quick': 45, 'thorough': 420}
 # deterministic sub-checks repeated in a `python -O` child (core.optimized_child)
 OPT_SUBS = ('typeerror', 'family')
+# documented call interface the generated calls rely on (vcheck/callstyle.py)
+INTERFACE = [('oslo_utils.strutils', ['mask_dict_password', 'mask_password'])]
+# pairs of sampled cases are run against each other under every single
+# preemption inside these modules (core.preempt_pair)
+PREEMPT_MODULES = ['oslo_utils.strutils']
 RULE = ('family: each of the 35 pinned sanitize keys x 5 case variants x 4 '
         'positions (alone, prefixed, suffixed, embedded) x 8 value kinds x 6 '
         'Mapping types, at depth 1 and nested at depth 2, plus single-edit '
@@ -132,6 +137,41 @@ class LazyMap(collections.abc.Mapping):
     def __repr__(self):
         return 'LazyMap(%s)' % json.dumps([[repr(k), v] for k, v in
                                            self._items], sort_keys=True)
+
+
+class InjectedFault(Exception):
+    pass
+
+
+class FlakyMap(collections.abc.Mapping):
+    """A Mapping over another one whose k-th value lookup fails once (a
+    proxy over a remote or lazily loaded structure).  After the failure it
+    behaves like the mapping it wraps."""
+
+    def __init__(self, inner, fail_at):
+        self._inner = inner
+        self._countdown = fail_at
+
+    def _tick(self):
+        if self._countdown is not None:
+            self._countdown -= 1
+            if self._countdown < 0:
+                self._countdown = None
+                raise InjectedFault('lookup failed')
+
+    def __getitem__(self, key):
+        v = self._inner[key]
+        self._tick()
+        return v
+
+    def __iter__(self):
+        return iter(self._inner)
+
+    def __len__(self):
+        return len(self._inner)
+
+    def __repr__(self):
+        return 'FlakyMap(%r)' % (self._inner,)
 
 
 class _Opaque:
@@ -323,7 +363,9 @@ def snapshot(x, stable=True):
     """Structure, reprs and (where objects are stored rather than built on
     access) identities of everything reachable from x."""
     if isinstance(x, collections.abc.Mapping):
-        inner = stable and not isinstance(x, LazyMap)
+        inner = stable and not isinstance(
+            getattr(x, '_inner', x) if isinstance(x, FlakyMap) else x,
+            LazyMap)
         return ('M', type(x).__name__, id(x) if stable else 0,
                 tuple((type(k).__name__, id(k) if stable else 0, repr(k),
                        snapshot(v, inner))
@@ -336,7 +378,8 @@ def snapshot(x, stable=True):
 
 def compare(col, sub, case, arg, res, secret, strutils, extra, path,
             lazy=False):
-    lazy = lazy or isinstance(arg, LazyMap)
+    lazy = lazy or isinstance(arg, LazyMap) or (
+        isinstance(arg, FlakyMap) and isinstance(arg._inner, LazyMap))
     def bad(msg):
         raise Violation(sub, 'at %s: %s' % ('/'.join(path) or '<top>', msg),
                         case)
@@ -409,6 +452,19 @@ def oracle(col, case, sub='random'):
     extra = tuple(k for k in getattr(strutils, '_SANITIZE_KEYS', ())
                   if isinstance(k, str) and k not in PINNED)
     arg = build_mapping(spec, {} if case.get('share') else None)
+    if case.get('fault') is not None:
+        # error path, then retry: a first call on this very object dies in
+        # the middle of the walk (the fault is the structure's own), the
+        # second call - judged below like any other - must be unaffected
+        arg = FlakyMap(arg, case['fault'])
+        try:
+            strutils.mask_dict_password(arg, **kw)
+        except InjectedFault:
+            pass
+        except Exception as e:
+            raise Violation(sub, 'a failing lookup inside the argument '
+                            'surfaced as %r' % (e,), case)
+        arg._countdown = None
     stats = spec_stats(spec)
     depth = spec_depth(spec)
     nontrivial = (depth >= 2 or stats['nonstr'] or
@@ -420,6 +476,8 @@ def oracle(col, case, sub='random'):
     cls += sorted(stats['values'])
     if case.get('share'):
         cls.append('shared-objects')
+    if case.get('fault') is not None:
+        cls.append('fault-then-retry')
     if stats['secret_keys']:
         cls.append('has-secret-key')
     col.case(sub, json.dumps(case, sort_keys=True), nontrivial, tuple(cls),
@@ -482,6 +540,8 @@ def family(col, lo, hi):
                     [['s', kstr], val],
                     [['s', 'cmd'], ['s', 'run --%s hunter2 now' % key]]]}
                 oracle(col, {'arg': inner, 'secret': None}, sub)
+                oracle(col, {'arg': inner, 'secret': None,
+                             'fault': (ki + vi + pi) % 4}, sub)
                 outer = {'m': MAPPING_TYPES[(ki + vi) % len(MAPPING_TYPES)],
                          'items': [[['s', kstr], inner],
                                    [['i', ki], ['s', 'plain']],
@@ -511,6 +571,29 @@ def family(col, lo, hi):
             oracle(col, {'arg': {'m': 'dict', 'items': [
                 [['s', nm], ['s', 'TL0EfN33']],
                 [['s', nm.upper()], ['i', 7]]]}, 'secret': None}, sub)
+    col.exhaustive[sub] = True
+
+
+def lazy_chains(col):
+    """Deterministic: chains of lazily built mappings (every level is a
+    fresh, short-lived object, freed as soon as the walk lets go of it), of
+    1..3 nested levels and 1..3 children per level, with secrets at the
+    bottom.  Object addresses are recycled here as a matter of course: any
+    bookkeeping keyed on id() of objects that are not kept alive goes wrong."""
+    sub = 'lazy-chains'
+    for depth in (1, 2, 3):
+        for width in (1, 2, 3):
+            for leaf in ([[['s', 'password'], ['s', 'hunter2']],
+                          [['s', 'note'], ['s', 'token = abc']]],
+                         [[['s', 'x'], ['i', 1]]]):
+                spec = {'m': 'lazy', 'items': leaf}
+                for d in range(depth):
+                    spec = {'m': 'lazy', 'items': [
+                        [['s', 'k%d_%d' % (d, i)], spec]
+                        for i in range(width)]}
+                oracle(col, {'arg': spec, 'secret': None}, sub)
+                oracle(col, {'arg': {'m': 'dict', 'items': [
+                    [['s', 'outer'], spec]]}, 'secret': '???'}, sub)
     col.exhaustive[sub] = True
 
 
@@ -642,7 +725,7 @@ def tasks(tier, seed):
         n, shards = 1500, 8
     else:
         n, shards = 6000, 14
-    out = [Task('typeerror', type_errors)]
+    out = [Task('typeerror', type_errors), Task('lazy-chains', lazy_chains)]
     for lo in range(0, len(PINNED), 5):
         out.append(Task('family', family, lo=lo, hi=min(len(PINNED), lo + 5)))
     for i in range(shards):
